@@ -175,12 +175,15 @@ def normalize_hostname(hostname, normalize_amp=True):
     hostname = hostname.strip().lower()
     hostname = CONTROL_CHARS_RE.sub("", hostname)
 
+    # NOTE: decoded first, an "amp-" prefix can be the start of a punycode label
+    hostname = decode_punycode_hostname(hostname).lower()
+
     hostname = strip_irrelevant_parts_from_hostname(
         hostname, normalize_amp=normalize_amp
     )
 
-    # NOTE: done last, an "amp-" prefix hides the "xn--" header of its label
-    hostname = decode_punycode_hostname(hostname)
+    # NOTE: and last, an "amp-" prefix hides the "xn--" header of its label
+    hostname = decode_punycode_hostname(hostname).lower()
 
     return hostname
 
@@ -324,9 +327,10 @@ def normalize_url(
     # Dropping irrelevant subdomains & AMP prefix, then handling punycode
     # NOTE: punycode is decoded last, an "amp-" prefix hides the "xn--" header
     # of its label
+    # NOTE: and first, an "amp-" prefix can be the start of a punycode label
     if hostname:
         hostname = strip_irrelevant_parts_from_hostname(
-            hostname.lower(),
+            decode_punycode_hostname(hostname.lower()).lower(),
             normalize_amp=normalize_amp,
             strip_irrelevant_subdomains=strip_irrelevant_subdomains,
         )
